@@ -268,3 +268,8 @@ pub(crate) fn manifests_missing_for_desired(
 
     false
 }
+
+#[cfg(agentpack_verif)]
+pub(crate) fn verif_ensure_safe_relative_path(p: &str) -> bool {
+    ensure_safe_relative_path(p).is_ok()
+}
